@@ -60,7 +60,7 @@ from ._loaders_dumpers import (
     json_or_yaml_loader_exceptions,
     load_value,
 )
-from ._namespace import Namespace
+from ._namespace import Namespace, recreate_branches
 from ._optionals import (
     capture_typing_extension_shadows,
     get_alias_target,
@@ -1397,8 +1397,8 @@ def adapt_class_type(
 
     discard_init_args_on_class_path_change(parser, prev_val, value)
 
-    dict_kwargs = value.pop("dict_kwargs", {})
-    init_args = value.get("init_args", Namespace())
+    dict_kwargs = recreate_branches(value.pop("dict_kwargs", {}))
+    init_args = recreate_branches(value.get("init_args", Namespace()))
 
     if instantiate_classes:
         init_args = parser.instantiate_classes(init_args)
